@@ -89,6 +89,11 @@ __gmp_doprnt_integer (const struct doprnt_funs_t *funs,
   /* the influence of p->prec on mpq is currently undefined */
   zeros = MAX (0, p->prec - slen);
 
+  /* as in C, '#' on an octal adds a leading zero only if the precision has
+     not supplied one already */
+  if (p->base == 8 && zeros > 0)
+    showbaselen = 0;
+
   /* space left over after actual output length */
   justlen = p->width
     - (strlen(s) + signlen + showbaselen + den_showbaselen + zeros);
